@@ -35,17 +35,17 @@ Qed.
 (* ---- the repaired defect (fix of session.go notify): the witness history of the former finding
    c06-duplicate-dhcp-path-offline-offer now yields ONE notification ---- *)
 Definition dup_history : list op :=
-  [ DHCPv4Update ex_mac1 (IP4 3232235521) 1 10;
+  [ DHCPv4Update ex_mac1 (IP4 3232235521) (named 1) 10;
     Rx {| f_src := ex_mac1; f_class := FIP4; f_ip := IP4 0; f_arpmac := 0; f_dhcp4 := true |} 20; Notify; Drain;
     Purge 400 [IP4 3232235521; IP4 3232235531; IP4 3232235649]; Drain;
-    NameUpdate KMdns (IP4 3232235521) 2;
+    NameUpdate KMdns (IP4 3232235521) (named 2);
     Rx {| f_src := ex_mac1; f_class := FIP4; f_ip := IP4 0; f_arpmac := 0; f_dhcp4 := true |} 410 ].
 
 Lemma dup_fixed :
   let s := run std_cfg ex_s0 dup_history in
   known_C06_dup s = true /\ chan s = [] /\
   exists n, chan (fst (step std_cfg s Notify)) = [n] /\ nt_ip n = IP4 3232235521 /\ nt_online n = false /\
-            n_mdns (nt_names n) = 2.
+            n_mdns (nt_names n) = named 2.
 Proof.
   cbv zeta. split; [vm_compute; reflexivity|]. split; [vm_compute; reflexivity|].
   eexists. split; [vm_compute; reflexivity|]. repeat split; reflexivity.
